@@ -314,6 +314,10 @@ def main(ctx, replay):
         ctx.notes.append("proof obligations broken: %s" % proof_broken)
         cov["discharged"] = 0
 
+    # every call of a queue-mutation tool appends exactly one audit record, whatever it matched (real MCP server on a real database)
+    from lib import c14admin
+    audit_stats = c14admin.audit_probe(ctx, info, rng)
+    cov.update(audit_stats)
     cov.update({
         "evaluations": evaluations,
         "distinct_nontrivial": len(nontrivial),
